@@ -55,7 +55,7 @@ def handle (fn : String) (a : Json) : R Json := do
       ("ttlRejectCmp", Json.str (cmpName Gen.Nonce.ttlRejectCmp)), ("capRejectCmp", Json.str (cmpName Gen.Nonce.capRejectCmp)),
       ("shape", ofBool (Gen.Nonce.clockReadBeforeLock && Gen.Nonce.singleLock && Gen.Nonce.criticalSectionOrder
         && Gen.Nonce.evictsOldest && Gen.Nonce.sweepFromFront && Gen.Nonce.expiryIsNowPlusTtl
-        && Gen.Nonce.capDefaultIsConst)), ("fingerprint", Json.str Gen.Nonce.fingerprint)])
+        && Gen.Nonce.capDefaultIsConst && Gen.Nonce.lockCreatedInInit)), ("fingerprint", Json.str Gen.Nonce.fingerprint)])
   | "validate" => pure (ofBool (validate (← intF a "ttl") (← intF a "cap")))
   | "seq" =>
     let cap ← natF a "cap"
